@@ -316,6 +316,11 @@ var builtinMap = map[string]code{
 	"copy":   codeCopy,
 }
 
+// posOf is the position of a token as instructions carry it.
+func (c *compiler) posOf(tok *token) pos {
+	return newPos(c.Globals, tok.Pos.Filename, c.FuncName, tok.Pos.Line, tok.Pos.Column)
+}
+
 func (c *compiler) compile(tok *token) []instruction {
 	if tok == nil { // an operator whose operand the parser could not supply, e.g. "x /;"
 		panicf("missing operand")
@@ -639,6 +644,9 @@ func (c *compiler) compile(tok *token) []instruction {
 					res = append(res, instruction{Code: codeConvert, A: reg(typ.Int())})
 					break
 				}
+			}
+			if last := &fnc[len(fnc)-1]; tok.Tokens[callName].Symbol == "." && last.Code == codeGetAttr {
+				last.Pos = c.posOf(tok) // the method lookup is part of the call: FASTCALLATTR has one position for both
 			}
 			res = append(res, fnc...)
 
@@ -1036,10 +1044,10 @@ func (c *compiler) doOptimize(in []instruction) []instruction {
 			out = append(out, instruction{Pos: in[n].Pos, Code: codeFastSetInt, A: in[n].A, B: in[n+1].A})
 			n += 2
 		case n < len(in)-2 && in[n].Code == codeLocalGet && in[n+1].Code == codeGetAttr && in[n+2].Code == codeCall:
-			out = append(out, instruction{Pos: in[n].Pos, Code: codeFastCallAttr, A: in[n].A, B: in[n+1].A, C: joinParams(in[n+2].A, in[n+2].B)})
+			out = append(out, instruction{Pos: in[n+2].Pos, Code: codeFastCallAttr, A: in[n].A, B: in[n+1].A, C: joinParams(in[n+2].A, in[n+2].B)}) // positioned like the CALL it replaces
 			n += 2
 		case n < len(in)-1 && in[n].Code == codeGlobalGet && in[n+1].Code == codeCall:
-			out = append(out, instruction{Pos: in[n].Pos, Code: codeFastCall, A: in[n].A, B: in[n+1].A, C: in[n+1].B})
+			out = append(out, instruction{Pos: in[n+1].Pos, Code: codeFastCall, A: in[n].A, B: in[n+1].A, C: in[n+1].B})
 			n += 1
 
 		case n < len(in)-1 && in[n].Code == codeLocalGet && in[n+1].Code == codeGetAttr:
